@@ -425,9 +425,25 @@ pub fn vx_check_len<E>(e: &E) -> (b: bool) { unimplemented!() }
 '''
 
 
+TABLES_SPEC = r'''
+/// identifier `i` is attached to some stored row
+pub open spec fn vx_stored<R: Registry>(m: IMap<archetype::IdentifierRef<R>, archetype::Archetype<R>>, i: entity::Identifier) -> bool {
+    exists|k: archetype::IdentifierRef<R>, r: int| m.dom().contains(k) && 0 <= r < m[k].length && #[trigger] m[k].ids()[r] == i
+}
+
+/// W1: every table is well formed, keyed by its own key, and every stored row is reachable
+/// through the identifier attached to it
+pub open spec fn vx_tables_ok<R: Registry>(m: IMap<archetype::IdentifierRef<R>, archetype::Archetype<R>>, a: &Allocator<R>) -> bool {
+    forall|k: archetype::IdentifierRef<R>| m.dom().contains(k) ==>
+        (#[trigger] m[k]).wf() && m[k].key() == k && m[k].agrees(a)
+}
+'''
+
+
 def build():
     u = alloc.build(name="arch", archetype_items=archetype_items)
     u.text(BATCH_HELPERS)
+    u.text(TABLES_SPEC)
     # ---- entities::Batch (real struct and constructors)
     u.text("pub mod entities {\n    use super::*;")
     u.struct(EN, "Batch")
